@@ -178,3 +178,268 @@ func nilFuncCalls(c *Ctx, rule string, pkgs ...string) {
 		c.R.Note(rule, "-", "no call of a function value obtained from a map lookup; nothing to judge")
 	}
 }
+
+// adapterWritesOnError: contextMarshalerAdapter.MarshalGQL (what turns a context-aware scalar marshaler into an ordinary one)
+// writes a value on every path: when the wrapped marshaler reports an error (a non-finite float, for one) the adapter records
+// the error AND writes null — otherwise the enclosing object or list is left with `"f":` / `[1,,3]`, which is not JSON.
+func adapterWritesOnError(c *Ctx) {
+	c.R.Rule("adapter-writes-on-error", "graphql.contextMarshalerAdapter.MarshalGQL: on the edge where the wrapped marshaler returned an error, every path to the return records the error and writes to the writer (null)", 1)
+	fn := c.fn(pkgGraphql, "contextMarshalerAdapter.MarshalGQL")
+	if fn == nil {
+		return
+	}
+	w := ssa.Value(fn.Params[len(fn.Params)-1])
+	n := 0
+	for _, e := range an.CondEdges(fn) {
+		isErr := func(v ssa.Value) bool {
+			cc := an.AllExtractOf(v, 0)
+			return cc != nil && strings.HasSuffix(an.CalleeOf(cc).FullName(), "MarshalGQLContext")
+		}
+		empty, k := an.EmptinessFact(e.Fact, isErr)
+		if !k || empty {
+			continue
+		}
+		n++
+		writes, records := true, true
+		for _, r := range an.Returns(fn) {
+			if !an.Reach(e.To, nil)[r.Block()] && r.Block() != e.To {
+				continue
+			}
+			first := e.To.Instrs[0]
+			if !pathsPassFromBlock(e.To, r, func(in ssa.Instruction) bool {
+				call, ok := in.(ssa.CallInstruction)
+				if !ok {
+					return false
+				}
+				for _, a := range call.Common().Args {
+					if a == w || an.SameVar(a, w) {
+						return true
+					}
+				}
+				return call.Common().IsInvoke() && (call.Common().Value == w || an.SameVar(call.Common().Value, w))
+			}) {
+				writes = false
+			}
+			if !pathsPassFromBlock(e.To, r, func(in ssa.Instruction) bool {
+				call, ok := in.(ssa.CallInstruction)
+				return ok && strings.HasSuffix(an.CalleeOf(call).FullName(), "graphql.AddError")
+			}) {
+				records = false
+			}
+			_ = first
+		}
+		c.R.Check(writes && records, "contextMarshalerAdapter.MarshalGQL/error-edge", c.ipos(e.If), "records the error and writes null", sprintf("on a marshaling error the adapter does not both record the error and write a value (records: %v, writes: %v): the surrounding object/list is serialised with a missing value, which is not valid JSON, and the whole response fails", records, writes))
+	}
+	if n == 0 {
+		c.R.Bad("contextMarshalerAdapter.MarshalGQL/error-edge", c.pos(fn.Pos()), "the error result of the wrapped marshaler is never tested")
+	}
+}
+
+// pathsPassFromBlock: every path from the start of block b to instruction target executes an instruction satisfying pred.
+func pathsPassFromBlock(b *ssa.BasicBlock, target ssa.Instruction, pred func(ssa.Instruction) bool) bool {
+	seen := map[*ssa.BasicBlock]bool{b: true}
+	var walk func(blk *ssa.BasicBlock) bool // true if target reachable avoiding pred
+	walk = func(blk *ssa.BasicBlock) bool {
+		for _, in := range blk.Instrs {
+			if pred(in) {
+				return false
+			}
+			if in == target {
+				return true
+			}
+		}
+		for _, s := range blk.Succs {
+			if seen[s] {
+				continue
+			}
+			seen[s] = true
+			if walk(s) {
+				return true
+			}
+		}
+		return false
+	}
+	return !walk(b)
+}
+
+// errorListOnce: OperationContext.Error unrolls a gqlerror.List into one AddError per element — and then returns; the list as a
+// whole is not added again.  One failure yields one error entry per error.
+func errorListOnce(c *Ctx) {
+	c.R.Rule("error-list-once", "graphql.OperationContext.Error: no path executes AddError for the elements of an unrolled gqlerror.List and then AddError again for the list itself", 1)
+	fn := c.fn(pkgGraphql, "*OperationContext.Error")
+	if fn == nil {
+		return
+	}
+	var calls []ssa.CallInstruction
+	for _, call := range an.CallsIn(fn, func(_ ssa.CallInstruction, ci an.CalleeInfo) bool { return ci.FullName() == pkgGraphql+".AddError" }) {
+		calls = append(calls, call)
+	}
+	bad := ""
+	for _, a := range calls {
+		for _, b := range calls {
+			if a != b && an.CanReach(a, b) && an.CanReach(a, a) && !an.CanReach(b, b) {
+				bad = "after the per-element AddError loop at " + c.ipos(a) + " the function goes on to AddError at " + c.ipos(b) + ": every error of a returned list is reported, and then the list once more"
+			}
+		}
+	}
+	c.R.Check(bad == "" && len(calls) > 0, "OperationContext.Error/unroll-then-return", c.pos(fn.Pos()), sprintf("%d AddError sites on exclusive paths", len(calls)), bad)
+}
+
+// omittableSetOnSuccess: every successful return of Omittable's Unmarshal* methods has marked the value as set.
+func omittableSetOnSuccess(c *Ctx) {
+	c.R.Rule("omittable-set", "graphql.Omittable[T].UnmarshalGQL / UnmarshalGQLContext / UnmarshalJSON: every return of a nil error is preceded on all paths by a store of true into the `set` field", 2)
+	n := 0
+	for _, tp := range c.W.All {
+		if tp.PkgPath != pkgGraphql || tp.Types == nil {
+			continue
+		}
+		tn, _ := tp.Types.Scope().Lookup("Omittable").(*types.TypeName)
+		if tn == nil {
+			continue
+		}
+		named, _ := tn.Type().(*types.Named)
+		if named == nil {
+			continue
+		}
+		for i := 0; i < named.NumMethods(); i++ {
+			m := named.Method(i)
+			if !strings.HasPrefix(m.Name(), "Unmarshal") {
+				continue
+			}
+			fn := c.W.Prog.FuncValue(m)
+			if fn == nil || len(fn.Blocks) == 0 {
+				continue
+			}
+			n++
+			bad := ""
+			for _, r := range an.Returns(fn) {
+				if fn.Recover != nil && r.Block() == fn.Recover {
+					continue
+				}
+				if len(r.Results) != 1 {
+					continue
+				}
+				if v := an.ReturnedValue(r, 0); nonNilValue(v) || nonNilAt(r, v) || nonNilAt(r, r.Results[0]) {
+					continue // a failing return
+				}
+				if !mustPassThrough(fn, r, func(in ssa.Instruction) bool {
+					st, ok := in.(*ssa.Store)
+					if !ok {
+						return false
+					}
+					fa, ok := st.Addr.(*ssa.FieldAddr)
+					if !ok || fieldNameOf(fa) != "set" {
+						return false
+					}
+					k, isC := st.Val.(*ssa.Const)
+					return isC && k.Value != nil && k.Value.String() == "true"
+				}) {
+					bad = "the return at " + c.ipos(r) + " reports success without having marked the value as set: an explicitly supplied value looks omitted afterwards (IsSet() false, Value() zero)"
+				}
+			}
+			c.R.Check(bad == "", "Omittable."+m.Name(), c.pos(fn.Pos()), "set = true before every successful return", bad)
+		}
+	}
+	if n < 2 {
+		c.R.Fail("omittable-set examined only %d methods", n)
+	}
+}
+
+// parseWidth: the built-in scalar readers parse numbers with the full width of the type they return: the bitSize handed to
+// strconv.ParseInt / ParseUint / ParseFloat in graphql.Unmarshal* is 64, or at least the width of the function's numeric result
+// (a narrower parse rejects valid values — e.g. a uint ID above 2^32 — or silently rounds a float64 through float32).
+func parseWidth(c *Ctx) {
+	c.R.Rule("parse-width", "in graphql.Unmarshal* (and their helpers) the bitSize argument of strconv.ParseInt/ParseUint/ParseFloat is a constant not smaller than the width of the function's numeric result type (64 for int, uint, int64, uint64, float64)", 8)
+	sizes := types.SizesFor("gc", "amd64")
+	n := 0
+	for _, fn := range c.moduleFuncs(func(p string) bool { return p == pkgGraphql }) {
+		top := topFn(fn)
+		if top.Signature.Recv() != nil || !isScalarCodecName(top.Name()) {
+			continue
+		}
+		want := int64(64)
+		if res := top.Signature.Results(); res.Len() > 0 {
+			if bt, ok := res.At(0).Type().Underlying().(*types.Basic); ok && bt.Info()&(types.IsInteger|types.IsFloat) != 0 {
+				want = sizes.Sizeof(bt) * 8
+			}
+		}
+		for _, call := range an.CallsIn(fn, func(_ ssa.CallInstruction, ci an.CalleeInfo) bool {
+			n := ci.FullName()
+			return n == "strconv.ParseInt" || n == "strconv.ParseUint" || n == "strconv.ParseFloat"
+		}) {
+			n++
+			args := call.Common().Args
+			bits, isC := an.ConstInt(args[len(args)-1])
+			key := top.Name() + "/" + strings.TrimPrefix(an.CalleeOf(call).FullName(), "strconv.")
+			if !isC {
+				c.R.Note(key, c.ipos(call), "bitSize is not a constant; not judged")
+				continue
+			}
+			// bitSize 0 means int/uint for the integer parsers
+			if bits == 0 && an.CalleeOf(call).FullName() != "strconv.ParseFloat" {
+				bits = 64
+			}
+			c.R.Check(bits >= want, key, c.ipos(call), sprintf("bitSize %d covers the %d-bit result", bits, want), sprintf("the number is parsed with bitSize %d although the function returns a %d-bit value: inputs in the upper part of the range are rejected (integers) or silently rounded (floats)", bits, want))
+			// base: ParseInt/ParseUint must use base 10 (base 0 accepts 0x.., 010, 1_0 and changes the number)
+			if len(args) == 3 {
+				if base, isB := an.ConstInt(args[1]); isB {
+					c.R.Check(base == 10, key+"/base", c.ipos(call), "base 10", sprintf("the number is parsed with base %d: \"010\" or \"0x10\" is read as a different number", base))
+				}
+			}
+		}
+	}
+	if n < 8 {
+		c.R.Fail("parse-width examined only %d strconv.Parse* calls", n)
+	}
+}
+
+// jsonControlBound: writeQuotedString escapes every control character: the comparison that selects the \u00XX form covers all
+// bytes below 0x20 (JSON forbids raw U+0000–U+001F inside strings).
+func jsonControlBound(c *Ctx) {
+	c.R.Rule("control-chars-escaped", "graphql.writeQuotedString: the byte comparison that guards the escape branch is `c < 0x20` (or an equivalent `<= 0x1f`): no control character is written raw", 1)
+	fn := c.fn(pkgGraphql, "writeQuotedString")
+	if fn == nil {
+		return
+	}
+	found, ok := false, false
+	where := c.pos(fn.Pos())
+	for _, b := range fn.Blocks {
+		for _, in := range b.Instrs {
+			bo, isB := in.(*ssa.BinOp)
+			if !isB || (bo.Op != token.LSS && bo.Op != token.LEQ && bo.Op != token.GEQ && bo.Op != token.GTR) {
+				continue
+			}
+			k, isC := an.ConstInt(bo.Y)
+			if !isC || k < 0x10 || k > 0x30 {
+				continue
+			}
+			if bt, isBt := bo.X.Type().Underlying().(*types.Basic); !isBt || bt.Info()&types.IsInteger == 0 {
+				continue
+			}
+			// the compared value is the character being written (a byte or rune of the input), not an index or a length
+			isChar := false
+			for _, d := range an.Defs(bo.X) {
+				switch d.(type) {
+				case *ssa.Extract, *ssa.Lookup, *ssa.Index:
+					isChar = true
+				case *ssa.UnOp:
+					isChar = true
+				}
+			}
+			if !isChar {
+				continue
+			}
+			found = true
+			where = c.ipos(in)
+			switch {
+			case bo.Op == token.LSS && k == 0x20, bo.Op == token.LEQ && k == 0x1f, bo.Op == token.GEQ && k == 0x20, bo.Op == token.GTR && k == 0x1f:
+				ok = true
+			}
+		}
+	}
+	if !found {
+		c.R.Note("writeQuotedString/control-bound", where, "no byte comparison with a constant near 0x20 found (escaping is organised differently); not judged")
+		return
+	}
+	c.R.Check(ok, "writeQuotedString/control-bound", where, "all bytes below 0x20 take the escape branch", "the control-character test does not cover every byte below 0x20: a string containing such a byte is written with the raw control character inside the quotes, which is not valid JSON")
+}
